@@ -57,8 +57,10 @@ func (g *Gen) boundaryCase(cfg string) (*TyDef, *Val) {
 		}
 	}
 	target := boundaryTargets[g.r.Intn(len(boundaryTargets))]
-	if g.r.P(2) {
-		// the next width of a length prefix: 3 -> 4 bytes at 2^21 (a two-megabyte body; rare: the op is large)
+	if g.r.P(2) && g.bigBodies < 6 {
+		// the next width of a length prefix: 3 -> 4 bytes at 2^21 (a two-megabyte body: at most six per
+		// run — each op is 4 MB of text; in proportion to the op count the thorough tier wrote gigabytes)
+		g.bigBodies++
 		target = 2097150 + g.r.Intn(5)
 	}
 	enc := cfgRef(cfg)
